@@ -10,6 +10,7 @@ import Mathlib.Algebra.BigOperators.Fin
 import Mathlib.Algebra.BigOperators.Ring.Finset
 import Mathlib.Algebra.BigOperators.Field
 import Mathlib.Tactic.Linarith
+import Mathlib.Tactic.FinCases
 import Mathlib.Algebra.Order.BigOperators.Group.Finset
 
 /-!
@@ -1204,4 +1205,35 @@ theorem sparse_factorisation_never_fails_refine (be : Backend) (hbe : be.isDense
     have := hw t
     linarith
 end qdreg
+set_option linter.unusedSimpArgs false in
+/-- non-vacuity of `QDef`: `[[2, 1], [1, -3]]` with sign pattern `(+, −)` over ℚ -/
+example : QDef (K := ℚ) (fun i : Fin 2 => decide (i = 0)) (Mat.ofFn fun i j => if i = 0 ∧ j = 0 then 2 else if i = 1 ∧ j = 1 then -3 else 1) := by
+  refine ⟨?_, ?_, ?_⟩
+  · intro i j
+    fin_cases i <;> fin_cases j <;> simp [Mat.ofFn]
+  · intro x hx hne
+    have h1 : x[(1 : Fin 2)] = 0 := hx 1 (by decide)
+    have h0 : x[(0 : Fin 2)] ≠ 0 := by
+      obtain ⟨i, hi⟩ := hne
+      fin_cases i
+      · exact hi
+      · exact absurd h1 hi
+    unfold quad
+    simp only [Fin.sum_univ_two, matOfFn_get', h1]
+    have hp := mul_self_pos.mpr h0
+    simp only [Fin.isValue, true_and, and_self, if_true, mul_zero, add_zero, zero_mul]
+    linarith
+  · intro x hx hne
+    have h0 : x[(0 : Fin 2)] = 0 := hx 0 (by decide)
+    have h1 : x[(1 : Fin 2)] ≠ 0 := by
+      obtain ⟨i, hi⟩ := hne
+      fin_cases i
+      · exact absurd h0 hi
+      · exact hi
+    unfold quad
+    simp only [Fin.sum_univ_two, matOfFn_get', h0]
+    have hp := mul_self_pos.mpr h1
+    have h10 : ¬ ((1 : Fin 2) = 0) := by decide
+    simp only [Fin.isValue, and_self, and_true, if_true, h10, if_false, mul_zero, add_zero, zero_mul, zero_add, false_and]
+    linarith
 end Piqp.C14
